@@ -23,6 +23,23 @@ from absx import Out, St, UNIT, TRUE, FALSE, neg_term
 import hirq
 
 MORE = ('more',)
+
+def pct_decode_exact(text):
+    """percent_encoding::percent_decode(text.as_bytes()) collected and read as UTF-8: every `%` that is followed by two hex digits
+    stands for the octet they spell, every other octet (a `%` not followed by two hex digits included) for itself - one pass, left
+    to right, the decoded octets are not looked at again (percent-encoding 2.x, `PercentDecode::next` / `after_percent_sign`).
+    None when the octets are not valid UTF-8."""
+    b, out, i = text.encode(), bytearray(), 0
+    HEX = b'0123456789abcdefABCDEF'
+    while i < len(b):
+        if b[i] == 0x25 and i + 2 < len(b) and b[i + 1] in HEX and b[i + 2] in HEX:
+            out.append(int(b[i + 1:i + 3], 16)); i += 3
+        else:
+            out.append(b[i]); i += 1
+    try:
+        return bytes(out).decode('utf-8')
+    except UnicodeDecodeError:
+        return None
 NONE = ('ctor', 'None', ())
 
 def some(x):
@@ -803,14 +820,26 @@ class StrDomain:
             a = args[0]
             if a[0] == 'asbytes':
                 return val(('pct', a[1]))
-            if a[0] == 'lit' and isinstance(a[1], bytes) and a[1].isascii():
-                return val(('pct', ('lit', a[1].decode())))
+            if a[0] == 'lit' and isinstance(a[1], bytes):
+                try:
+                    return val(('pct', ('lit', a[1].decode('utf-8'))))      # the octets of a str literal (`s.as_bytes()` evaluated): the decoder of that text
+                except UnicodeDecodeError:
+                    pass
         if args and args[0][0] == 'pct' and name == 'decode_utf8' and len(args) == 1:
             x = args[0][1]
             if x[0] == 'lit' and isinstance(x[1], str) and '%' not in x[1]:
                 # nothing to decode: the bytes of a str are valid UTF-8, the result is Ok(the same text)
                 return val(('ctor', 'Ok', (x,)))
             return val(('utf8', x))
+        if args and args[0][0] == 'pct' and name == 'decode_utf8_lossy' and len(args) == 1:
+            # on a literal, exactly: the decoded octets when they are valid UTF-8 (then `from_utf8_lossy` replaces nothing and the
+            # Cow holds that very text); an invalid sequence is left to the opaque term (where U+FFFD goes is not modelled)
+            x = args[0][1]
+            if x[0] == 'lit' and isinstance(x[1], str):
+                d = pct_decode_exact(x[1])
+                if d is not None:
+                    return val(('lit', d))
+            return None
 
         # ---- a workspace predicate over two strings (role: a comparison helper of the analysed function)
         if cal in I.facts.hir and node.get('ty') == 'bool' and len(args) == 2 and all(is_str(a) for a in args):
